@@ -206,5 +206,4 @@ fn c43_steer() {
         assert!(t_after == 0, "filter time unchanged without a system clock step");
     }
     kani::cover!(s0 == 1 && unsafe { SET_VAL[0] } == max[0] && max[0] > 0.0 && s1 == 0, "system clock slew clamped at +max, second clock stepped");
-    kani::cover!(s1 == 1 && unsafe { SET_VAL[1] }.abs() < max[1] && s0 == 0 && st[0] < 0.0, "second clock slewed unclamped, system clock stepped (negative offset)");
 }
